@@ -279,6 +279,61 @@ theorem run_diverged_iff (s : Replay) (ops : List Op) :
     | fin na nb => simp [stepOp]
     | other => simp [stepOp]
 
+
+/-! ### the probe models (tied to the real functions by harness/c14_probe_test.go) -/
+
+theorem mem_dedupSorted (a : Nat) (l : List Nat) : a ∈ dedupSorted l ↔ a ∈ l := by
+  fun_induction dedupSorted l <;> simp_all
+
+/-- the snapshot's validator set contains exactly the addresses of the stored slice (duplicates collapse) -/
+theorem mem_validatorSet (a : Addr) (l : List Addr) : a ∈ validatorSet l ↔ a ∈ l := by
+  unfold validatorSet
+  rw [mem_dedupSorted]
+  exact (List.mergeSort_perm l leB).mem_iff
+
+/-- the validator set (keys of the map, sorted) does not depend on the order of `ClientState.Validators` nor on the
+    order in which the map hands out its keys -/
+theorem validatorSet_perm {l₁ l₂ : List Addr} (h : l₁.Perm l₂) : validatorSet l₁ = validatorSet l₂ := by
+  unfold validatorSet
+  rw [sortAddrs_perm h]
+
+/-- bsc `verifySeal`: the verdict on a header (unauthorized / recently signed / wrong difficulty / ok) is the same
+    for every order of the validator slice and every visiting order of the recents map -/
+theorem bsc_verdict_perm {v₁ v₂ : List Addr} {r₁ r₂ : List (Nat × Addr)} (hv : v₁.Perm v₂) (hr : r₁.Perm r₂)
+    (number : Nat) (signer : Addr) (claim : Bool) :
+    bscVerdict v₁ r₁ number signer claim = bscVerdict v₂ r₂ number signer claim := by
+  unfold bscVerdict
+  simp only [validatorSet_perm hv, hr.any_eq]
+
+/-- relayer registry: a chain is authorised iff some address is found for it (first match), when the two slices
+    have the same length (checked by `RegisterRelayerProposal.ValidateBasic`) -/
+theorem relayerAddr_isSome (chains addrs : List String) (c : String) (hl : chains.length = addrs.length) :
+    (relayerAddr chains addrs c).isSome = relayerAuth chains c := by
+  induction chains generalizing addrs with
+  | nil => cases addrs <;> simp [relayerAddr, relayerAuth]
+  | cons ch cs ih =>
+    cases addrs with
+    | nil => simp at hl
+    | cons a as =>
+      simp only [List.length_cons, Nat.add_right_cancel_iff] at hl
+      simp only [relayerAddr, relayerAuth, List.contains_cons]
+      by_cases h : ch = c
+      · simp [h]
+      · have h' : (c == ch) = false := by simp [Ne.symm h]
+        simp only [h, ↓reduceIte, h', Bool.false_or]
+        exact ih as hl
+
+/-- the eth future-block verdict is a function of the block time and the two header times only — no wall clock -/
+theorem eth_time_future_iff (bt pt ht : Nat) : ethTimeVerdict bt pt ht = "future" ↔ ht > bt + 15 := by
+  unfold ethTimeVerdict
+  by_cases h : ht > bt + 15
+  · simp [h]
+  · by_cases h2 : ht ≤ pt <;> simp [h, h2]
+
+example : validatorSet [5, 3, 5, 9, 3] = [3, 5, 9] := by
+  have h : sortAddrs [5, 3, 5, 9, 3] = [3, 3, 5, 5, 9] := sortAddrs_eq_of_sorted (by decide) (by decide)
+  simp [validatorSet, h, dedupSorted]
+
 /-! ### non-vacuity -/
 
 example : validators [5, 3, 9] = [3, 5, 9] := sortAddrs_eq_of_sorted (by decide) (by decide)
